@@ -80,10 +80,10 @@ M = [
      "            surrounding_data = np.concatenate((before_data, after_data))\n",
      "            surrounding_data = np.concatenate((before_data, after_data)) if len(before_data) < 3 else before_data\n",
      "pooled surroundings ignore the right part when the left part has >= 3 rows"),
-    ("c13-local-surroundings-check-dropped", "C13", ["C13"], "skchange/anomaly_scores/from_cost.py",
-     "        if not np.all(surrounding_intervals_sizes >= self.min_size):\n",
-     "        if not np.all(surrounding_intervals_sizes >= min(self.min_size, 2)):\n",
-     "surroundings smaller than min_size accepted when min_size > 2"),
+    ("c13-only-first-part-checked", "C13", ["C13"], "skchange/utils/validation/cuts.py",
+     "    if not np.all(interval_sizes >= min_size):\n",
+     "    if not np.all(interval_sizes[:, 0] >= min_size):\n",
+     "only the first part of each cut is checked for spacing (the hand-written predecessor, dropping the pooled-surroundings check of LocalAnomalyScore, turned out to be an equivalent mutant: the inner cost re-validates)"),
     ("c14-mw-bandwidth-zero-accepted", "C14", ["C14"], "skchange/change_detectors/moving_window.py",
      "        check_larger_than(1, self.bandwidth, \"bandwidth\")\n",
      "        check_larger_than(0, self.bandwidth, \"bandwidth\")\n",
